@@ -21,7 +21,7 @@ QTEXT = P.get("qtext", "$[?@.a in @.b]")
 COMPILED = ENV.compile(QTEXT)
 SPINE = P.get("spine", "objarr")
 MAXN = P.get("maxn", 2)
-SIGMA = ["a", "/", "~", "0", "1", "+", "-", "#", "\\", "é", "_", " ", "'", '"', "\u0661", "\U0001F600", "\x01", "u", "2"][: P.get("sigma", 19)]
+SIGMA = ["a", "/", "~", "0", "1", "+", "-", "#", "\\", "é", "²", "_", " ", "'", '"', "\u0661", "\U0001F600", "\x01", "u", "2"][: P.get("sigma", 20)]
 PREFIX = P.get("prefix", 0)
 BASE = P.get("base", 0)
 MAXS = P.get("maxs", 3)
